@@ -57,10 +57,10 @@ class FuncInfo:
         if r is None:
             node = self.raw_node
             if not os.environ.get("XSA_NO_INLINE"):
-                from .normalize import local_normalise
+                from .normalize import inline_pure
 
                 try:
-                    node = local_normalise(self.raw_node)  # purely local canonical form; helpers are not inlined
+                    node = inline_pure(self)  # local canonical form; only single-expression private helpers are inlined
                 except RecursionError:
                     node = self.raw_node
             r = FuncInfo(self.module, self.qualname, self.raw_node, self.cls, node)
